@@ -18,5 +18,5 @@ fn unique_deref_mut() { let r: &mut u32; { let mut a = UniqueArc::new(1u32);
     r = &mut *a; //~ E0597 | r = Box::leak(Box::new(1u32));
     } use_it(r); }
 fn offset_make_mut() { let r: &mut u32; { let mut a = Arc::into_raw_offset(Arc::new(1u32));
-    r = a.make_mut(); //~ E0597 | r = Box::leak(Box::new(1u32));
+    r = triomphe::OffsetArc::make_mut(&mut a); //~ E0597 | r = Box::leak(Box::new(1u32));
     } use_it(r); }
